@@ -337,7 +337,35 @@ fn mk_poly(ext: Ring, holes: Vec<Ring>) -> Polygon<f64> {
 }
 
 /// polygon stream: valid shapes, mutated rings, random rings, shells with randomly placed holes
+/// a concave (U-shaped) shell with a hole whose vertices all lie strictly inside the shell — two in the arms, one in the
+/// base — while the edge between the arms runs across the notch, outside the shell (invalid); or the same hole pulled
+/// down into the base (valid)
+fn notch_hole_polygon(rng: &mut Rng) -> Polygon<f64> {
+    let (sw, fx) = (rng.chance(1, 2), rng.chance(1, 2));
+    let c = |x: i64, y: i64| { let (x, y) = if sw { (y, x) } else { (x, y) }; Coord { x: if fx { -(x as f64) } else { x as f64 }, y: y as f64 } };
+    let shell = vec![c(0, 0), c(12, 0), c(12, 8), c(8, 8), c(8, 4), c(4, 4), c(4, 8), c(0, 8), c(0, 0)];
+    let hole = if rng.chance(2, 3) {
+        let y = rng.range(5, 7);
+        vec![c(rng.range(1, 3), y), c(rng.range(9, 11), y), c(6, rng.range(1, 2)), c(0, 0)]     // crosses the notch
+    } else {
+        vec![c(2, 3), c(10, 3), c(6, 1), c(0, 0)]                                               // stays in the base
+    };
+    let mut hole = hole;
+    let n = hole.len();
+    hole[n - 1] = hole[0];
+    let k = rng.below(3) as usize;
+    let mut h: Vec<Coord<f64>> = hole[..3].to_vec();
+    h.rotate_left(k);
+    if rng.chance(1, 2) { h.reverse(); }
+    let f = h[0];
+    h.push(f);
+    Polygon::new(LineString(shell), vec![LineString(h)])
+}
+
 fn gen_poly_case(rng: &mut Rng, k: i64) -> Polygon<f64> {
+    if rng.chance(1, 25) {
+        return notch_hole_polygon(rng);
+    }
     match rng.below(10) {
         0 | 1 => gen_polygon(rng, k),
         2 | 3 => {
